@@ -1,20 +1,41 @@
 (* C06 — x/auction: custody is exact, outbid bidders are made whole, payouts are
    exact, the returned collateral is split exactly and pro rata.
-   Property theorems only; proofs are in Proofs/Auction.v and Proofs/Split.v. *)
+   Property theorems only; proofs are in Proofs/Auction.v and Proofs/Split.v.
+
+   Guards.  [op_okb] (Model/Auction.v) is what the callers of the keeper guarantee:
+   Start*Auction is called by another keeper with its own module account (not the
+   auction module account) as initiator, non-negative bid / lot / max-bid amounts
+   and return addresses other than the auction module account; a bidder is a
+   message signer, never the auction module account; and the parts a reverse
+   collateral bid pays out are what splitIntIntoWeightedBuckets returned, of which
+   only [split_ok] is assumed (any tie-breaking of the unstable sort).  [guarded]
+   asks this of the successful operations of a history only. *)
 From Coq Require Import Permutation.
 From Kava Require Import Base.Prelude Base.Dec Model.Split Model.Auction Proofs.Split Proofs.Auction.
 
-(* The module invariant — the auction module account holds, in every denom, exactly
-   the coins its open auctions account for; the by-time index is the list of
-   (end time, id) keys of the stored auctions, each exactly once; every end time is
-   at most its max end time; ids are unique and below the next id — holds after
-   every history of Start / PlaceBid / Close / BeginBlock operations, of any length,
-   with arbitrary block times. *)
+(** * custody, index, end <= max end: for all histories *)
+
+(* The module invariant holds after every history of Start / PlaceBid / Close /
+   BeginBlock operations, of any length, with arbitrary block times. *)
 Theorem C06_invariant_all_histories :
   forall e ops s, env_wf e -> Inv e s -> guarded e s ops -> Inv e (run e s ops).
 Proof. intros e ops s. exact (run_inv e ops s). Qed.
 Print Assumptions C06_invariant_all_histories.
 
+(* ... in particular from the empty store *)
+Theorem C06_invariant_reachable :
+  forall e b nx ops, env_wf e -> (forall d, b (amod e) d = 0) ->
+  guarded e (mkState b [] [] nx) ops -> Inv e (run e (mkState b [] [] nx) ops).
+Proof. exact reachable_inv. Qed.
+Print Assumptions C06_invariant_reachable.
+
+(* What the invariant says: the auction module account holds, in every denom,
+   exactly the coins its open auctions account for (lot of a surplus auction,
+   remaining debt of a debt auction, lot + remaining debt of a collateral auction);
+   the by-time index is a permutation of the (end time, id) keys of the stored
+   auctions and ids are pairwise distinct — every stored auction appears in the
+   index exactly once and nothing else does; every end time is at most its max end
+   time; ids are below the next id. *)
 Theorem C06_invariant_means :
   forall e s, Inv e s ->
   (forall d, bal s (amod e) d = held d (aucs s)) /\
@@ -23,3 +44,272 @@ Theorem C06_invariant_means :
   (forall a, In a (aucs s) -> a_end a <= a_maxend a /\ a_id a < next_id s).
 Proof. exact Inv_means. Qed.
 Print Assumptions C06_invariant_means.
+
+Theorem C06_step_preserves_invariant :
+  forall e s o s', env_wf e -> Inv e s -> op_okb e s o = true -> step e s o = Ok s' tt -> Inv e s'.
+Proof. exact step_inv. Qed.
+Print Assumptions C06_step_preserves_invariant.
+
+(** * bids *)
+
+(* An accepted bid: the block time is not after the end time; forward bids are at
+   least standing bid + max(1, round(standing bid * increment)) — or, on a
+   collateral auction, exactly the max bid — and never above the max bid; reverse
+   bids lower the lot by at least max(1, round(lot * increment)) and not below 0.
+   The end time becomes min(t + duration, max end time) and the max end time is
+   fixed by the first bid (t + MaxAuctionDuration) and never changes afterwards. *)
+Theorem C06_bid_rules_and_end_time_capped :
+  forall e s t id bidder d x parts s' a,
+  afind id (aucs s) = Some a ->
+  step e s (PlaceBid t id bidder d x parts) = Ok s' tt ->
+  t <= a_end a /\
+  exists a', afind id (aucs s') = Some a' /\
+  a_bidder a' = bidder /\ a_kind a' = a_kind a /\ a_init a' = a_init a /\
+  a_has a' = true /\
+  a_maxend a' = (if a_has a then a_maxend a else t + max_dur e) /\
+  a_end a' = Z.min (t + bid_dur e a x) (a_maxend a') /\
+  match a_kind a with
+  | KSurplus => a_bid a' = x /\ a_lot a' = a_lot a /\ a_bid a + min_inc (inc_s e) (a_bid a) <= x
+  | KDebt => a_lot a' = x /\ a_bid a' = a_bid a /\ 0 <= x <= a_lot a - min_inc (inc_d e) (a_lot a)
+  | KColl =>
+      if is_reverse a
+      then a_lot a' = x /\ a_bid a' = a_bid a /\ 0 <= x <= a_lot a - min_inc (inc_c e) (a_lot a)
+      else a_bid a' = x /\ a_lot a' = a_lot a /\ x <= a_maxbid a /\
+           (a_bid a + min_inc (inc_c e) (a_bid a) <= x \/ x = a_maxbid a)
+  end.
+Proof. exact bid_rules. Qed.
+Print Assumptions C06_bid_rules_and_end_time_capped.
+
+(* the minimum increment is max(1, NewDecFromInt(v).Mul(inc).RoundInt()) *)
+Theorem C06_min_increment :
+  forall inc v, min_inc inc v = Z.max 1 (dec_round_int (dec_mul (dec_of_int v) inc)) /\ 1 <= min_inc inc v.
+Proof. intros inc v. split; [reflexivity|apply min_inc_pos]. Qed.
+Print Assumptions C06_min_increment.
+
+Theorem C06_bid_strictly_improves :
+  forall e s t id bidder d x parts s' a,
+  Inv e s -> afind id (aucs s) = Some a ->
+  step e s (PlaceBid t id bidder d x parts) = Ok s' tt ->
+  match a_kind a with
+  | KSurplus => a_bid a < x
+  | KDebt => x < a_lot a
+  | KColl => if is_reverse a then x < a_lot a else a_bid a < x
+  end.
+Proof. exact bid_strictly_improves. Qed.
+Print Assumptions C06_bid_strictly_improves.
+
+Theorem C06_bid_after_end_refused :
+  forall e s t id bidder d x parts a,
+  afind id (aucs s) = Some a -> a_end a < t -> step e s (PlaceBid t id bidder d x parts) = Err.
+Proof. exact bid_after_end_refused. Qed.
+Print Assumptions C06_bid_after_end_refused.
+
+(* The outbid bidder is repaid the full standing bid in the same step (on the first
+   bid of a debt auction the "previous bidder" is the initiator module, which also
+   gets the returned debt coins when they are of the bid denom). *)
+Theorem C06_outbid_refunded :
+  forall e s t id bidder d x parts s' a,
+  afind id (aucs s) = Some a ->
+  step e s (PlaceBid t id bidder d x parts) = Ok s' tt ->
+  let ob := a_bidder a in
+  ob <> bidder -> ob <> amod e ->
+  (match a_kind a with
+   | KSurplus => a_bid a <> 0
+   | KColl => is_reverse a = true \/ a_bid a <> 0
+   | KDebt => True end) ->
+  (ob = a_init a -> a_kind a = KDebt) ->
+  (a_kind a = KColl -> is_reverse a = true -> ~ In ob (a_raddrs a) \/ a_lot_d a <> a_bid_d a) ->
+  bal s' ob (a_bid_d a) = bal s ob (a_bid_d a) + a_bid a + first_debt_extra a.
+Proof. exact outbid_refunded. Qed.
+Print Assumptions C06_outbid_refunded.
+
+Theorem C06_new_bidder_pays_exactly :
+  forall e s t id bidder d x parts s' a,
+  afind id (aucs s) = Some a ->
+  step e s (PlaceBid t id bidder d x parts) = Ok s' tt ->
+  bidder <> amod e -> bidder <> a_init a ->
+  (a_kind a = KColl -> is_reverse a = true -> ~ In bidder (a_raddrs a) \/ a_lot_d a <> a_bid_d a) ->
+  bal s' bidder (a_bid_d a) = bal s bidder (a_bid_d a) -
+    (match a_kind a with
+     | KSurplus => if Nat.eqb bidder (a_bidder a) then x - a_bid a else x
+     | KDebt => if Nat.eqb bidder (a_bidder a) then 0 else a_bid a
+     | KColl => if is_reverse a then (if Nat.eqb bidder (a_bidder a) then 0 else a_bid a)
+                else (if Nat.eqb bidder (a_bidder a) then x - a_bid a else x)
+     end).
+Proof. exact new_bidder_pays. Qed.
+Print Assumptions C06_new_bidder_pays_exactly.
+
+(** * payout *)
+
+(* Close succeeds only at or after the end time, pays the winner exactly the lot,
+   deletes the auction (others untouched), and every later close is refused. *)
+Theorem C06_payout_once_after_end_exact :
+  forall e s t id s' a,
+  Inv e s -> afind id (aucs s) = Some a -> step e s (Close t id) = Ok s' tt ->
+  a_end a <= t /\
+  afind id (aucs s') = None /\
+  (forall t2, step e s' (Close t2 id) = Err) /\
+  (forall id', id' <> id -> afind id' (aucs s') = afind id' (aucs s)) /\
+  (a_bidder a <> a_init a ->
+   bal s' (a_bidder a) (a_lot_d a) = bal s (a_bidder a) (a_lot_d a) + a_lot a).
+Proof. exact close_spec. Qed.
+Print Assumptions C06_payout_once_after_end_exact.
+
+Theorem C06_close_before_end_refused :
+  forall e s t id a, afind id (aucs s) = Some a -> t < a_end a -> step e s (Close t id) = Err.
+Proof. exact close_before_end_refused. Qed.
+Print Assumptions C06_close_before_end_refused.
+
+Theorem C06_close_unknown_refused :
+  forall e s t id, afind id (aucs s) = None -> step e s (Close t id) = Err.
+Proof. exact close_unknown_refused. Qed.
+Print Assumptions C06_close_unknown_refused.
+
+(* After a successful begin blocker no stored auction has reached its end time. *)
+Theorem C06_begin_block_closes_all_expired :
+  forall e s t s', Inv e s -> step e s (BeginBlock t) = Ok s' tt ->
+  Inv e s' /\ forall a, In a (aucs s') -> In a (aucs s) /\ t < a_end a.
+Proof. exact begin_block_spec. Qed.
+Print Assumptions C06_begin_block_closes_all_expired.
+
+(* Exact custody means the module can always pay: closing an auction at or after
+   its end time never fails for lack of funds (it can only fail when the winner
+   cannot receive: a blocked or empty address, or a debt-auction initiator that
+   cannot mint). *)
+Theorem C06_close_never_short_of_funds :
+  forall e s t id a,
+  Inv e s -> afind id (aucs s) = Some a -> a_end a <= t ->
+  blocked e (a_bidder a) = false -> a_bidder a <> nobody e -> a_init a <> nobody e ->
+  (a_kind a = KDebt -> minter e (a_init a) = true /\ 0 <= bal s (a_init a) (a_lot_d a)) ->
+  exists s', step e s (Close t id) = Ok s' tt.
+Proof. exact close_pays. Qed.
+Print Assumptions C06_close_never_short_of_funds.
+
+(* The index stays in key order (end time, then id) through every history, and on
+   an index in key order the begin blocker's range iteration visits exactly the
+   entries with end time <= block time, a prefix of the index. *)
+Theorem C06_index_in_key_order :
+  forall e ops s, idx_sorted (idx s) -> idx_sorted (idx (run e s ops)).
+Proof. intros e ops s. exact (run_sorted e ops s). Qed.
+Print Assumptions C06_index_in_key_order.
+
+Theorem C06_expired_is_a_prefix :
+  forall t l, idx_sorted l ->
+  exists l1 l2, l = l1 ++ l2 /\ expired t l = map snd l1 /\
+    Forall (fun k => fst k <= t) l1 /\ Forall (fun k => t < fst k) l2.
+Proof. exact expired_prefix. Qed.
+Print Assumptions C06_expired_is_a_prefix.
+
+Theorem C06_failed_changes_nothing :
+  forall e s o, (forall s' u, step e s o <> Ok s' u) -> step' e s o = s.
+Proof.
+  intros e s o H. unfold step'. destruct (step e s o) as [s' u| |] eqn:E; auto.
+  exfalso. exact (H s' u eq_refl).
+Qed.
+Print Assumptions C06_failed_changes_nothing.
+
+(** * the split of the returned collateral (Split.v, pure) *)
+
+(* The boolean checker evaluated on the implementation's output is equivalent to:
+   as many parts as weights; the parts sum to the amount; each part is its
+   whole-number share floor(amount * w / W) or one more; whoever got the extra unit
+   has a remainder at least as large as whoever did not. *)
+Theorem C06_split_ok_iff_spec :
+  forall a ws ps, split_ok a ws ps = true <-> split_spec a ws ps.
+Proof. exact split_ok_spec. Qed.
+Print Assumptions C06_split_ok_iff_spec.
+
+(* The largest-remainder algorithm (with the stable order) satisfies it on every
+   input the Go function does not panic on. *)
+Theorem C06_split_correct :
+  forall a ws, split_valid a ws = true -> split_spec a ws (split a ws).
+Proof. exact split_correct. Qed.
+Print Assumptions C06_split_correct.
+
+Theorem C06_split_sum :
+  forall a ws ps, split_spec a ws ps -> zsum ps = a.
+Proof. exact split_spec_sum. Qed.
+Print Assumptions C06_split_sum.
+
+(* every allocation satisfying the specification — whatever the tie-breaking — is
+   strictly within one unit of the exact pro-rata share amount * w / W *)
+Theorem C06_split_near_exact :
+  forall a ws ps, split_valid a ws = true -> split_spec a ws ps ->
+  forall w p, In (w, p) (combine ws ps) ->
+  sq a (zsum ws) w <= p <= sq a (zsum ws) w + 1 /\
+  - zsum ws < zsum ws * p - a * w < zsum ws.
+Proof.
+  intros a ws ps Hv Hs w p Hin. split.
+  - destruct Hs as (_ & _ & Hr & _). exact (Hr w p Hin).
+  - exact (split_spec_within_one a ws ps Hv Hs w p Hin).
+Qed.
+Print Assumptions C06_split_near_exact.
+
+Theorem C06_split_largest_remainders_first :
+  forall a ws ps, split_spec a ws ps ->
+  forall w p w' p', In (w, p) (combine ws ps) -> In (w', p') (combine ws ps) ->
+  p = sq a (zsum ws) w + 1 -> p' = sq a (zsum ws) w' -> sr a (zsum ws) w' <= sr a (zsum ws) w.
+Proof. intros a ws ps (_ & _ & _ & Ho). exact Ho. Qed.
+Print Assumptions C06_split_largest_remainders_first.
+
+Theorem C06_split_leftover_bounds :
+  forall a ws, split_valid a ws = true -> 0 <= leftover a ws < Z.of_nat (length ws).
+Proof. exact leftover_bounds. Qed.
+Print Assumptions C06_split_leftover_bounds.
+
+(** * non-vacuity *)
+
+(* accounts: 0,1,2 users; 3 liquidator (minter, burner); 4 auction module; 5 the
+   empty address.  denoms: 0 debt, 1 ukava, 2 usdx, 3 xrp.  increments 5 %. *)
+Definition ex_env : env :=
+  mk_env 4 5 [false;false;false;true;true;false] [false;false;false;true;false;false]
+         [false;false;false;true;false;false] [false;false;false;true;true;false]
+         [1000; 300; 100] [50000000000000000; 50000000000000000; 50000000000000000].
+Definition ex_init : state :=
+  mk_state [[0;1000;1000;1000]; [0;1000;1000;1000]; [0;1000;1000;1000]; [500;5000;5000;5000]; [0;0;0;0]; [0;0;0;0]] [] [] 1.
+(* a collateral auction (lot 100 xrp, max bid 60 usdx, debt 50, returns 1:1:1 to users
+   0,1,2... here 0 and 1 with weights 1 and 2), a forward bid by user 0, user 1 outbids
+   at the max bid, user 2 lowers the lot to 90 (10 returned: parts 3 and 7), begin
+   block at the end time pays user 2; a surplus auction and a debt auction with bids. *)
+Definition ex_ops : list op :=
+  [StartColl 3 3 100 2 60 [0%nat;1%nat] [1;2] 0 50;
+   PlaceBid 10 1 0 2 20 [];
+   PlaceBid 20 1 1 2 60 [];
+   PlaceBid 30 1 2 3 90 [3;7];
+   StartSurplus 3 2 40 1;
+   PlaceBid 35 2 0 1 10 [];
+   PlaceBid 36 2 1 1 11 [];
+   StartDebt 3 2 30 1 80 0 30;
+   PlaceBid 40 3 2 1 70 [];
+   BeginBlock 130;
+   Close 336 2;
+   Close 340 3].
+
+Example C06_nonvacuous :
+  guardedb ex_env ex_init ex_ops = true /\
+  inv_b ex_env [0;1;2;3]%nat ex_init = true /\
+  let s := run ex_env ex_init ex_ops in
+  inv_b ex_env [0;1;2;3]%nat s = true /\ aucs s = [] /\ idx s = [] /\
+  (* user 2 won the collateral lot (90 xrp) for 60 usdx and the 80->70 ukava of the debt auction for 30 usdx *)
+  bal s 2%nat 3%nat = 1090 /\ bal s 2%nat 2%nat = 1000 - 60 - 30 /\ bal s 2%nat 1%nat = 1070 /\
+  (* user 0 was outbid twice and made whole; got 3 xrp back as depositor *)
+  bal s 0%nat 2%nat = 1000 /\ bal s 0%nat 1%nat = 1000 /\ bal s 0%nat 3%nat = 1003 /\
+  (* user 1 was outbid on the collateral auction (made whole), won the surplus lot (40 usdx) for 11 ukava, got 7 xrp back *)
+  bal s 1%nat 2%nat = 1040 /\ bal s 1%nat 1%nat = 989 /\ bal s 1%nat 3%nat = 1007.
+Proof. vm_compute. repeat split; reflexivity. Qed.
+
+(* the guard on initiators is needed: a Start with the auction module account itself
+   as seller succeeds and leaves the module holding less than its auctions account for *)
+Example C06_guard_needed :
+  let s1 := run ex_env ex_init [StartSurplus 3 2 40 1] in
+  exists s2, step ex_env s1 (StartSurplus 4 2 40 1) = Ok s2 tt /\
+  op_okb ex_env s1 (StartSurplus 4 2 40 1) = false /\
+  bal s2 4%nat 2%nat = 40 /\ held 2%nat (aucs s2) = 80.
+Proof. vm_compute. eexists. repeat split; reflexivity. Qed.
+
+Example C06_split_nonvacuous :
+  split_valid 10 [1;1;1] = true /\ split 10 [1;1;1] = [4;3;3] /\
+  split_ok 10 [1;1;1] [3;4;3] = true /\ split_ok 10 [1;1;1] [3;3;4] = true /\
+  split_ok 10 [1;1;1] [5;3;2] = false /\ split_ok 7 [2;0;5;3] [1;0;4;2] = true /\
+  split_ok 7 [2;0;5;3] [2;0;3;2] = false.
+Proof. vm_compute. repeat split; reflexivity. Qed.
